@@ -312,7 +312,7 @@ def run(ctx, model):
     other = lambda: make_operand(model, "pq", "Other", True)
     rows = [("AnyFrom", [], "NotEnoughArgumentsException"), ("AnyButFrom", [], "NotEnoughArgumentsException"),
             ("AnyFrom", ["ab"], T_EXC), ("AnyFrom", [5], T_EXC), ("AnyFrom", [None], T_EXC), ("AnyFrom", ["a", "bc"], T_EXC),
-            ("AnyFrom", [""], None), ("AnyButFrom", ["ab"], T_EXC), ("AnyButFrom", [5.0], T_EXC),
+            ("AnyFrom", [""], T_EXC), ("AnyBetween", ["", "a"], T_EXC), ("AnyButBetween", ["a", ""], T_EXC), ("AnyButFrom", ["ab"], T_EXC), ("AnyButFrom", [5.0], T_EXC),
             ("AnyBetween", ["ab", "c"], T_EXC), ("AnyBetween", ["a", "cd"], T_EXC), ("AnyBetween", [1, 2], T_EXC), ("AnyBetween", ["a", None], T_EXC),
             ("AnyBetween", ["b", "a"], "InvalidRangeException"), ("AnyBetween", ["a", "a"], "InvalidRangeException"),
             ("AnyButBetween", ["ab", "c"], T_EXC), ("AnyButBetween", [1, 2], T_EXC),
